@@ -3,6 +3,7 @@ package main
 import (
 	"os"
 	"fmt"
+	"go/token"
 	"go/ast"
 	"go/constant"
 	"go/types"
@@ -470,6 +471,51 @@ func c18Admin(c *Ctx, handlers map[string]*handlerInfo) {
 			c.fail(r, construct, c.pos(w[len(w)-1].Pos()), "administrative handler "+name+" can succeed without the caller being sysadmin or admin of the database: "+c.witnessStr(w))
 		} else {
 			c.ok(r, construct, c.pos(f.Pos()), "every possibly successful return crosses IsSysAdmin or HasPermission(...) of the logged-in user")
+		}
+	}
+	// handlers that hand out rights on the database NAMED IN THE REQUEST are authorised by the caller's permission on
+	// that very database: being admin of some other database (HasAtLeastOnePermission) is not enough
+	rdb := "C18.2/rights-on-named-database-need-admin-there"
+	onNamed := anyEdge(
+		whenCond(true, func(a string) bool { return strings.HasSuffix(a, "#1.IsSysAdmin") && strings.Contains(a, "getLoggedInUserdataFromCtx") }),
+		func(b *ssa.BasicBlock, succ int) bool {
+			if len(b.Instrs) == 0 {
+				return false
+			}
+			ifi, ok := b.Instrs[len(b.Instrs)-1].(*ssa.If)
+			if !ok {
+				return false
+			}
+			v, pol := ifi.Cond, true
+			for {
+				u, ok := v.(*ssa.UnOp)
+				if !ok || u.Op != token.NOT {
+					break
+				}
+				v, pol = u.X, !pol
+			}
+			cl, ok := v.(*ssa.Call)
+			if !ok || calleeName(&cl.Call) != "pkg/auth.(*User).HasPermission" || len(cl.Call.Args) < 3 {
+				return false
+			}
+			if !strings.Contains(desc(cl.Call.Args[0]), "getLoggedInUserdataFromCtx") || desc(cl.Call.Args[1]) != "param:r.Database" {
+				return false
+			}
+			return (succ == 0) == pol
+		},
+	)
+	for _, name := range []string{"CreateUser", "ChangePermission", "ChangeSQLPrivileges"} {
+		h, ok := handlers[name]
+		if !ok {
+			c.undecided(rdb, "handler:"+name, "handler not found among the RPC handlers")
+			continue
+		}
+		q := &pathQ{fn: h.fn, fromEntry: true, to: successReturn, barrier: onNamed}
+		construct := "handler:" + name + ":admin-of-requested-database"
+		if w := q.bypass(); w != nil {
+			c.fail(rdb, construct, c.pos(w[len(w)-1].Pos()), name+" can succeed for a caller that is neither sysadmin nor admin of the database named in the request: "+c.witnessStr(w))
+		} else {
+			c.ok(rdb, construct, c.pos(h.fn.Pos()), "every possibly successful return crosses IsSysAdmin or HasPermission(r.Database, ...) of the logged-in user")
 		}
 	}
 	for _, name := range sortedKeys(delegatingHandlers) {
